@@ -26,23 +26,12 @@ def Graph.opOK (g : Graph) : GOp → Bool
   | .unregister n _ => n < g.nodes.length
   | .call n _ => n < g.nodes.length
 
-def Graph.step (cfg : Cfg) (g : Graph) : GOp → Graph × Option Outcome
-  | .create ms lb => (g.create ms lb, none)
-  | .addMixins n ms => g.addMixins n ms
-  | .register n d => g.register n d
-  | .unregister n id => g.unregister n id
-  | .call n c => let r := g.call cfg n c; (r.1, some r.2.1)
-
 /-- every operation of the sequence is well-formed where it is applied, and no build fails with a
     configuration error (inconsistent argument names are C18's subject) -/
 def Graph.opsOK (cfg : Cfg) : Graph → List GOp → Bool
   | _, [] => true
   | g, op :: rest =>
     g.opOK op && (g.step cfg op).2 != some .configError && Graph.opsOK cfg (g.step cfg op).1 rest
-
-def Graph.runOps (cfg : Cfg) : Graph → List GOp → Graph
-  | g, [] => g
-  | g, op :: rest => Graph.runOps cfg (g.step cfg op).1 rest
 
 /-- the table in service of every function that has been put to use was built from exactly the definitions
     that function has now: its ancestors' overlaid by its own -/
